@@ -152,6 +152,11 @@ func (k *checker) check(stream string, idx int, g gcase) {
 			}
 		} else if f != nil && f.cat == "structure" {
 			c.Event("eval.differs (trees differ too)", 1)
+		} else if moved := evalProgram("\n\n   " + g.src); !sameEval(a, moved) {
+			// the program observes its own source positions (e.g. it turns a
+			// function value into text): moving it changes what it does, so
+			// formatting may as well
+			c.Event("eval.position-dependent-program (not comparable)", 1)
 		} else {
 			c.Event("eval.differs-with-equal-trees", 1)
 			k.seen["behaviour"]++
